@@ -376,6 +376,12 @@ impl<'a, 'src: 'a> Compiler<'a, 'src> {
     }
   }
 
+  /// Continue cache slot numbering from a previous compilation of this module
+  pub fn with_cache_id_emitter(mut self, cache_id_emitter: CacheIdEmitter) -> Self {
+    self.cache_id_emitter = Rc::new(RefCell::new(cache_id_emitter));
+    self
+  }
+
   #[cfg(feature = "debug")]
   pub fn with_io(mut self, io: Io) -> Self {
     self.io = Some(io);
